@@ -272,33 +272,7 @@ func init() {
 			}
 		}
 		// (2) hostile KeyUsage / SCT / subject-directory contents through ExtraExtensions
-		hostile := []struct {
-			oid asn1.ObjectIdentifier
-			val []byte
-			why string
-		}{
-			{asn1.ObjectIdentifier{2, 5, 29, 15}, []byte{0x03, 0x01, 0x00}, "keyUsage empty bit string"},
-			{asn1.ObjectIdentifier{2, 5, 29, 15}, []byte{0x03, 0x02, 0x07, 0x80}, "keyUsage one bit"},
-			{asn1.ObjectIdentifier{2, 5, 29, 15}, []byte{0x03, 0x02, 0x00, 0x00}, "keyUsage zero byte"},
-			{asn1.ObjectIdentifier{2, 5, 29, 15}, []byte{0x03, 0x03, 0x07, 0xff, 0x80}, "keyUsage nine bits"},
-			{asn1.ObjectIdentifier{2, 5, 29, 15}, []byte{0x03, 0x03, 0x00, 0x00, 0x00}, "keyUsage trailing zero byte"},
-			{asn1.ObjectIdentifier{1, 3, 6, 1, 4, 1, 11129, 2, 4, 2}, []byte{0x04, 0x00}, "SCT list empty octet string"},
-			{asn1.ObjectIdentifier{1, 3, 6, 1, 4, 1, 11129, 2, 4, 2}, []byte{0x04, 0x02, 0x00, 0x00}, "SCT list zero length"},
-			{asn1.ObjectIdentifier{1, 3, 6, 1, 4, 1, 11129, 2, 4, 2}, []byte{0x04, 0x01, 0x00}, "SCT list one byte"},
-			{asn1.ObjectIdentifier{1, 3, 6, 1, 5, 5, 7, 1, 3}, []byte{0x30, 0x00}, "qcStatements empty"},
-			{asn1.ObjectIdentifier{1, 3, 6, 1, 5, 5, 7, 1, 3}, []byte{0x30, 0x02, 0x30, 0x00}, "qcStatements empty statement"},
-			{asn1.ObjectIdentifier{2, 5, 29, 9}, []byte{0x30, 0x00}, "subjectDirectoryAttributes empty"},
-			{asn1.ObjectIdentifier{2, 5, 29, 31}, []byte{0x30, 0x00}, "crlDistributionPoints empty"},
-			{asn1.ObjectIdentifier{2, 5, 29, 31}, []byte{0x30, 0x02, 0x30, 0x00}, "crlDistributionPoints empty point"},
-			{asn1.ObjectIdentifier{1, 3, 6, 1, 5, 5, 7, 1, 1}, []byte{0x30, 0x00}, "AIA empty"},
-			{asn1.ObjectIdentifier{2, 5, 29, 37}, []byte{0x30, 0x00}, "EKU empty"},
-			{asn1.ObjectIdentifier{2, 5, 29, 32}, []byte{0x30, 0x00}, "policies empty"},
-			{asn1.ObjectIdentifier{2, 5, 29, 30}, []byte{0x30, 0x00}, "nameConstraints empty"},
-			{asn1.ObjectIdentifier{2, 5, 29, 17}, []byte{0x30, 0x00}, "SAN empty"},
-			{asn1.ObjectIdentifier{2, 5, 29, 18}, []byte{0x30, 0x00}, "IAN empty"},
-			{asn1.ObjectIdentifier{2, 23, 140, 1, 31}, []byte{0x30, 0x00}, "tor descriptor empty"},
-			{asn1.ObjectIdentifier{1, 2, 840, 113583, 1, 1, 9, 1}, []byte{0x30, 0x00}, "adobe timestamp empty"},
-		}
+		hostile := hostileExtensions
 		for _, h := range hostile {
 			for _, crit := range []bool{false, true} {
 				t := leafTemplate()
@@ -392,6 +366,11 @@ func init() {
 				lintCert(c.DER, strings.SplitN(c.Why, " ", 3)[0]+" subject attribute", map[string]interface{}{"profile": c.Why, "subject": c.Attrs})
 			}
 			out.Stats["structured_subjects"] = len(sc)
+		}
+		// (3c) the shared zoo (key usages x EKUs, signature algorithms, oddly typed subject strings, names under TLDs of every
+		// status, related names, several IP addresses, validity encodings, ...)
+		for _, zc := range certZoo() {
+			lintCert(zc.DER, "zoo "+zc.Class, map[string]interface{}{"zoo": zc.File})
 		}
 		// (4) corpus x structure-aware mutation of extension contents
 		corpus := loadCorpus()
